@@ -218,6 +218,7 @@ class SyncInterpreter(BaseInterpreter[TContext, TEvent]):
         # after which the queue is drained normally.
         self._is_processing = True
         self._drain_thread = threading.get_ident()
+        self._transition_in_flight = True
         try:
             self._enter_states([self.machine])
             # 🔄 Settle immediate "always" transitions behind the same guard:
@@ -233,6 +234,12 @@ class SyncInterpreter(BaseInterpreter[TContext, TEvent]):
             if self.status == "stopped":
                 self._release_resources()
             self._is_processing = False
+            self._transition_in_flight = False
+        if self._failure_notice_deferred:
+            # a service failed during the initial entry: tell subscribers now
+            # that the initial configuration is complete
+            self._failure_notice_deferred = False
+            self._notify_subscribers()
         if self.status == "stopped":
             return self
         # 📬 Drain anything raised while the initial configuration settled.
@@ -615,6 +622,7 @@ class SyncInterpreter(BaseInterpreter[TContext, TEvent]):
         #    one: it is unrecoverable and silently swallows every later event.
         self._cancelled_in_transition = []
         self._entered_in_transition = []
+        self._transition_in_flight = True
         try:
             self._exit_states(
                 sorted(
@@ -667,7 +675,13 @@ class SyncInterpreter(BaseInterpreter[TContext, TEvent]):
                 if node in snapshot_before_transition:
                     self._schedule_state_tasks(node)
             self._cancelled_in_transition = []
+            self._transition_in_flight = False
+            if self._failure_notice_deferred:
+                self._failure_notice_deferred = False
+                self._notify_subscribers()
             raise
+        self._transition_in_flight = False
+        self._failure_notice_deferred = False
 
         # Notify plugins and subscribers of the completed transition.
         self._notify_subscribers()
